@@ -72,6 +72,9 @@ def bad_statements(rng):
         ("comparison as index of an array read", f"let {v}: u8 = [1u8, 2u8][1u8 < 2u8];"),
         ("comparison as size of an array repeat", f"let {v}: [u8; 2] = [1u8; 1u8 < 2u8];"),
         ("comparison as shift amount", f"let {v}: u8 = 1u8 << (1u8 < 2u8);"),
+        ("unsuffixed range at a signed array type (fix 7bf4e4f)", f"let {v}: [i8; 3] = 2..5;"),
+        ("unsuffixed range beyond its element type (fix 7bf4e4f)", f"let {v}: [u8; 3] = 254..257;"),
+        ("unsuffixed range at an array type of another length", f"let {v}: [u8; 4] = 2..5;"),
         ("comparison as range bound of a for loop", f"for it_{v} in 0usize..(1u8 < 2u8) {{ let w_{v}: usize = it_{v}; }}"),
     ]
 
